@@ -443,7 +443,7 @@ func checkC39(c *Ctx, r *Report) {
 		}
 		stsName := ""
 		for _, fn := range m.FuncsInPkg(pkgOperator) {
-			if !strings.Contains(fn.Name(), "reconcileBrokerStatefulSet") && !strings.Contains(fn.Name(), "reconcileBroker") {
+			if !strings.Contains(shortName(fn), "reconcileBrokerStatefulSet") && !strings.Contains(shortName(fn), "reconcileBroker") {
 				continue
 			}
 			for _, call := range findCalls(fn, "fmt.Sprintf") {
